@@ -86,6 +86,12 @@ public:
    void SetOrigLine(size_t line);
    void SetOrigCol(size_t col);
    Chunk *CopyAndAddBefore(Chunk *pos) const;
+   Chunk *CopyAndAddAfter(Chunk *pos) const;
+   void SetLevel(size_t level);
+   size_t GetBraceLevel() const;
+   void SetBraceLevel(size_t level);
+   bool IsCommentOrNewline() const;
+   unsigned long GetFlags() const;
    static Chunk *GetHead();
    static Chunk *GetTail();
    static void Delete(Chunk * &pc);
